@@ -188,7 +188,7 @@ func runSub(prop string, extra []string, env []string) (violated map[string]bool
 func runVariants(prop string) []variantResult {
 	vs := loadVariants(prop)
 	res := make([]variantResult, len(vs))
-	sem := make(chan struct{}, 3)
+	sem := make(chan struct{}, 5)
 	var wg sync.WaitGroup
 	for i, v := range vs {
 		wg.Add(1)
